@@ -274,6 +274,27 @@ func init() {
 	}
 	externals["github.com/gotd/td/telegram/message/entity.setLength"] = setEntityField("Length")
 	externals["github.com/gotd/td/telegram/message/entity.setOffset"] = setEntityField("Offset")
+	// proto.GZIP.Decode: the inflate step (klauspost/compress) is outside the engine's reach. Model:
+	// the packed object is consumed and either rejected or yields 24 arbitrary bytes.
+	externals["(*github.com/gotd/td/proto.GZIP).Decode"] = func(fr *frame, args []value) value {
+		i := fr.i
+		if i.cfg.Concrete != nil {
+			return callSSARaw(i, fr, "", args)
+		}
+		i.res.Stubs["proto.GZIP.Decode: inflate not executed; yields an error or 24 arbitrary bytes"] = true
+		okv := i.nondet("gzip:ok", types.Bool)
+		if !i.branchVal(okv) {
+			return i.stdErrorsNew("verif: gzip decode failed")
+		}
+		data := make([]value, 24)
+		for j := range data {
+			data[j] = i.nondet(fmt.Sprintf("gzip[%d]", j), types.Uint8)
+		}
+		p := args[0].(*value)
+		st := (*p).(structure)
+		st[0] = data
+		return iface{}
+	}
 	externals["crypto/internal/constanttime.boolToUint8"] = func(fr *frame, args []value) value {
 		switch b := args[0].(type) {
 		case bool:
